@@ -524,3 +524,53 @@ def r10_2(ctx):
                     if any("Collection" in str(l) for l in tables.pat_literals(arm["pat"])) and tables.body_result(arm.get("body", {})) == ("lit", True):
                         okc = True
     ctx.ob("yaml:trial-answers-is-collection", okc, site(yt), "YAML trial accepts only collection-rooted first documents")
+
+
+@rule("R05.5", 3, "the YAML chunker's capture buffer is emptied once per document (bounded by the largest document, not the stream)", ["C05"])
+def r05_5(ctx):
+    lib = ctx.lib
+    crs = [b for b in lib.bodies if b.raw.get("impl_trait") == "std::io::Read" and b.name == "read" and any((fn_of(t) or {}).get("name") == "extend_from_slice" for _, t in b.calls())]
+    ctx.need(len(crs) == 1, "capturing chunk reader not found")
+    cr = crs[0]
+    cr_adt = cr.raw.get("impl_self_adt")
+    ext = [t for _, t in cr.calls() if (fn_of(t) or {}).get("name") == "extend_from_slice"][0]
+    tr = trace(cr, ext["args"][0])
+    fld = [s[1] for s in tr.steps if s[0] == "field"]
+    ctx.need(fld, "capture field not identified")
+    fld = fld[0]
+    SHRINK = ("split_off", "drain", "clear", "truncate", "replace", "take")
+    shrinkers = {}
+    for b in lib.bodies:
+        if b.raw.get("impl_self_adt") != cr_adt:
+            continue
+        for bb, t in b.calls():
+            f = fn_of(t) or {}
+            if f.get("name") in SHRINK and t["args"]:
+                a = trace(b, t["args"][0])
+                if any(s[0] == "field" and s[1] == fld for s in a.steps):
+                    shrinkers.setdefault(b.id, []).append(f["name"])
+    ctx.ob("shrinkers-exist", bool(shrinkers), site(cr), f"methods that empty `{fld}`: { {k.rsplit('::', 1)[-1]: v for k, v in shrinkers.items()} }")
+    movers = {k for k, v in shrinkers.items() if any(x in ("split_off", "replace", "take") for x in v)}
+    chunk_next = [b for b in lib.bodies if b.raw.get("impl_trait") == "std::iter::Iterator" and "Chunker" in b.raw.get("impl_self_ty", "")]
+    ctx.need(len(chunk_next) == 1, "chunker iterator not found")
+    cn = chunk_next[0]
+    done = False
+    for t in lib.tables_of(cn.id):
+        if t["form"] != "match":
+            continue
+        for arm in t["arms"]:
+            names = {tables.short(l[1]) for l in tables.pat_literals(arm["pat"]) if l[0] == "path"}
+            if "YAML_DOCUMENT_END_EVENT" in names:
+                sp = arm["span"]
+                calls = [(bb, tt) for bb, tt in cn.calls() if sp["line"] <= tt["line"] <= sp["end_line"] and ((fn_of(tt) or {}).get("resolved") or (fn_of(tt) or {}).get("def")) in movers]
+                ok = len(calls) >= 1
+                if ok:
+                    off = trace(cn, calls[0][1]["args"][1])
+                    ok = bool(off.origin and off.origin[0] == "call" and (fn_of(off.origin[2]) or {}).get("name") in ("end_offset",))
+                done = True
+                ctx.ob("document-end-takes-chunk", ok, site(cn, calls[0][0]) if calls else site(cn), "on DOCUMENT_END the captured bytes up to the event's end offset are moved out of the buffer" if ok else "the capture buffer is not emptied at the end of a document: it grows with the stream")
+    if not done:
+        ctx.ob("document-end-takes-chunk", False, site(cn), "no arm for YAML_DOCUMENT_END_EVENT found")
+    # the loop polls the parser once per iteration and does not retain events
+    pe = [(bb, t) for bb, t in cn.calls() if (fn_of(t) or {}).get("name") == "next_event"]
+    ctx.ob("one-parser-poll-per-iteration", len(pe) == 1 and cn.on_cycle(pe[0][0]), site(cn), "events are consumed one at a time")
